@@ -171,6 +171,48 @@ def ob_handshake(report):
                    'the dialer only after accept_uni and read_version_frame succeeded; same connection returned', ['wire::handshake'], {'inline_depth': 1}, body)
 
 
+def ob_connect_api(report):
+    """Network::connect_with_peer_id(addr, id) -> NetworkInner::connect: the connect request handed to the connection manager carries the caller's own
+    address and the caller's own expected identity (None for an unpinned dial) - nothing on the way substitutes another identity for the one named
+    (say the identity on record for that address): the pin the dial is checked against must be the one the caller asked for"""
+    def body(ob):
+        ex = e2.executor('anemo', [], max_depth=2)
+        fn0 = find_method(ex.prog, 'NetworkInner', 'connect')
+        fn = find_closure(ex.prog, fn0, [0])
+        ut = ex.upvar_types(fn)
+        i_addr = [i for i, t in ut.items() if re.search(r'(^|::)Address$', (t or '').strip())]
+        i_pid = [i for i, t in ut.items() if re.search(r'Option<(\w+::)*PeerId>$', (t or '').strip())]
+        if len(i_addr) != 1 or len(i_pid) != 1:
+            return ob.done([ex], 'inconclusive', f'NetworkInner::connect: address / expected-identity parameters not identified among {ut}', paths=0)
+        p, args = coroutine_start(ex, fn)
+        res = ex.run(fn, args, p)
+        n = 0
+        for r in res:
+            snd = [e for e in r.events if e.kind == 'call' and re.search(r'mpsc::(bounded::)?Sender::(send|try_send)$|Sender::send$', str(e.name)) and len(e.args) > 1
+                   and isinstance(e.args[1], Agg) and e.args[1].variant == 'ConnectRequest']
+            if not snd:
+                if r.tag == 'return' and isinstance(r.ret, Agg) and r.ret.variant == 'Ready' and isinstance(r.ret.fields[0], Agg) and r.ret.fields[0].variant == 'Ok':
+                    o = ob.done([ex], 'violated', 'NetworkInner::connect reports success on a path that never asks the connection manager to dial', path_summary(r), key='connect-api-no-request', paths=len(res))
+                    o.replay = write_replay(PROP, o.name, path_summary(r))
+                    return o
+                continue
+            n += 1
+            flat = e2.flatten_args(list(snd[0].args[1].fields))
+            addr_ok = any(vname(v) == f'gen.{i_addr[0]}' for v in flat)
+            pid_vals = [v for v in flat if re.search(r'^gen\.%d(\b|$)' % i_pid[0], vname(v))]
+            if not addr_ok or not pid_vals or vname(pid_vals[0]) != f'gen.{i_pid[0]}':
+                got = [vrepr(v)[:60] for v in flat]
+                o = ob.done([ex], 'violated', f'the connect request sent to the connection manager is {got}: not the caller\'s own (address, expected identity) - the identity the dial is pinned to '
+                            'was replaced on the way (the caller named one identity, the dial checks another)', path_summary(r), key='connect-api-substitutes', paths=len(res))
+                o.replay = write_replay(PROP, o.name, path_summary(r))
+                return o
+        if not n:
+            return ob.done([ex], 'inconclusive', 'no path sends a connect request', paths=len(res))
+        ob.done([ex], 'held', '', {'paths': len(res), 'requests_checked': n}, paths=len(res))
+    return guarded(report, 'connect_api_passes_expected_identity', 'NetworkInner::connect(addr, expected): the ConnectRequest it sends carries exactly (addr, expected)', ['NetworkInner::connect'],
+                   {'inline_depth': 2}, body)
+
+
 def check(report, tier, only=None):
     report.trusted += ['rustls/webpki/ring/x509-parser (TLS 1.3 handshake, signature and certificate validation)', 'quinn', 'z3 5.1']
     report.outside += ['that TLS actually fails for an impostor (cryptographic trust base)', 'loss during the handshake, concurrent dials', 'quinn connect_with plumbing']
@@ -180,7 +222,7 @@ def check(report, tier, only=None):
            # "registered" in dial_result_after_registration means add_peer: every connection it is given reaches ActivePeers::add (and gets its handler iff kept)
            ('add_peer_wiring', lambda rep: __import__('props.handler', fromlist=['x']).ob_add_peer(rep, PROP)),
            # the pin compares against the identity peer_id_from_certificate extracts: that must be the key the handshake signature was checked against (the parsed SPKI)
-           ('identity_extraction', lambda rep: tlsglue.ob_peer_id_extraction(rep, PROP))]
+           ('identity_extraction', lambda rep: tlsglue.ob_peer_id_extraction(rep, PROP)), ('connect_api', ob_connect_api)]
     for n, f in obs:
         if only and not any(s in n for s in only):
             continue
